@@ -125,6 +125,20 @@ Theorem C13_real_order_irrelevant : forall (V : Type) (l l' : entries V), NoDup 
   coherent V (SReal l') /\ fm_equiv V (iter V (SReal l')) (iter V (SReal l)) /\ size V (SReal l') = size V (SReal l).
 Proof. exact real_order_irrelevant. Qed.
 
+(* values are persistent, also in branching histories: what an earlier handle denotes does not change
+   when further operations (on that value or on others) follow; in particular the result of m + x is
+   the value of that step whatever is merged onto m later.  (The aliasing a Go slice append can introduce
+   is below this model - storages are immutable terms; it is C09's heap model (Heap/MapHeap.v, Heap/MapHeapProofs.v) that proves
+   persistence against sharing, and the run re-observes every value after its whole history.) *)
+Theorem C13_values_persistent : forall (V : Type) (ops later : list (op V)) (h : nat), h < length ops ->
+  nth_error (run V [] (ops ++ later)) h = nth_error (run V [] ops) h.
+Proof. exact values_persistent. Qed.
+
+Theorem C13_merge_result_independent_of_later_merges : forall (V : Type) (ops later : list (op V)) (a b : nat),
+  nth_error (run V [] (ops ++ OMerge a b :: later)) (length ops)
+  = Some (step V (run V [] ops) (OMerge a b)).
+Proof. exact merge_result_independent_of_later_merges. Qed.
+
 (* non-vacuity: a history over V = N that nests every wrapper and drives a replace chain through the
    flattening threshold; replacement keys inside ("b") and outside ("c") the original key set *)
 Local Open Scope N_scope.
@@ -165,3 +179,5 @@ Print Assumptions C13_equality_true_symmetric.
 Print Assumptions C13_equality_is_same_map.
 Print Assumptions C13_keys_stay_unique.
 Print Assumptions C13_real_order_irrelevant.
+Print Assumptions C13_values_persistent.
+Print Assumptions C13_merge_result_independent_of_later_merges.
